@@ -21,7 +21,7 @@ def main():
         "language independence, input-order independence at the level of generated FILES and 'inputs not mutated' for the jennies/veneers stages are decided by differential pipeline runs (c07-pipeline), not by a theorem: partial",
         "aliasing part (Passes.Process copies before transforming) rests on the C18 copy theorem and its regenerated facts",
     ]
-    hb, err = build_go("verifharness", "harness", files=HARNESS_BASE + ["c07.go", "c07_frame.go", "c07_pairs.go", "c07_lab.go", "lab_*.go", "src_*.go", "vir_builders.go", "c06_*.go"], tag="c07")
+    hb, err = build_go("verifharness", "harness", files=HARNESS_BASE + ["c07.go", "c07_frame.go", "c07_pairs.go", "c07_lab.go", "c07_veneers.go", "lab_*.go", "src_*.go", "c16_*.go", "c17_*.go", "vir_builders.go", "c06_*.go"], tag="c07")
     c.oblige("harness builds against /repo working tree", hb is not None, err)
     c.lean_obligations(THEOREMS)
     if hb is None:
@@ -38,6 +38,9 @@ def main():
     # every pair of testdata inputs (and every input against itself under two package names): [A,B] vs [B,A] vs alone
     c.correspond(hb, "c07-pairs", nontrivial=lambda r: r[1].startswith("pair ") or r[1].startswith("pair pinned"), n=0,
                  seed=c.seed, tier=c.tier, classify=lambda r: r[2][:70])
+    # builder veneers configured (C17's rule generator against the builders of the inputs)
+    c.correspond(hb, "c07-veneers", nontrivial=lambda r: r[1].startswith("veneers "), n=14 if quick else 500,
+                 seed=c.seed, tier=c.tier, classify=lambda r: r[2][:70])
     # generated inputs (lab grammar, three formats, names shared across packages)
     c.correspond(hb, "c07-lab", nontrivial=lambda r: r[1].startswith("lab ") and not r[1].startswith("lab-skip"), n=25 if quick else 600,
                  seed=c.seed, tier=c.tier, classify=lambda r: r[2][:70])
@@ -47,7 +50,7 @@ def main():
     c.correspond(hb, "c07-nilchecks", nontrivial=lambda r: "injected=0" not in r[1], n=600 if quick else 30000,
                  seed=c.seed, tier=c.tier, classify=cls)
     c.finish("cd /verif/lean && lake build Cog.Props.C07 drv && lake env lean <#print axioms of the C07_* theorems>",
-             "consolidate: random IR split over 1-3 inputs per package with injected conflicting definitions/metadata, model vs Schemas.Consolidate (VIR-equal) plus union-or-conflict oracle; pairs: pinned pairs + a seed-rotated subset (thorough: all) of the pairs of testdata inputs incl. each input against itself under two package names, [A,B] vs [B,A] vs each alone, all seven languages; lab: 2-3 generated source schemas (Src grammar, JSON Schema/OpenAPI/CUE, one package each) joint vs reversed vs each alone vs one language alone; pipeline: testdata schemas in random 2-3 input sets, each language alone vs all seven together, permuted inputs, an added unrelated input, VIR snapshot of the loaded schemas around ContextForLanguage; process-frame: random IR through each of the 7 language chains with a VIR snapshot of the input; nilchecks: builders with injected nested-path assignments, each builder alone vs among others vs reversed order; non-trivial = successful merge of >= 3 objects / every pipeline comparison")
+             "consolidate: random IR split over 1-3 inputs per package with injected conflicting definitions/metadata, model vs Schemas.Consolidate (VIR-equal) plus union-or-conflict oracle; pairs: pinned pairs + a seed-rotated subset (thorough: all) of the pairs of testdata inputs incl. each input against itself under two package names, [A,B] vs [B,A] vs each alone, all seven languages; veneers: 1-2 testdata inputs with generated builder veneer files (every rule kind; all/go/java), each language alone vs all, reversed inputs, the same pipeline run twice; lab: 2-3 generated source schemas (Src grammar, JSON Schema/OpenAPI/CUE, one package each) joint vs reversed vs each alone vs one language alone; pipeline: testdata schemas in random 2-3 input sets, each language alone vs all seven together, permuted inputs, an added unrelated input, VIR snapshot of the loaded schemas around ContextForLanguage; process-frame: random IR through each of the 7 language chains with a VIR snapshot of the input; nilchecks: builders with injected nested-path assignments, each builder alone vs among others vs reversed order; non-trivial = successful merge of >= 3 objects / every pipeline comparison")
 
 
 main()
